@@ -13,7 +13,11 @@ for c in R.values():
         v = Verifier(R, prop)
         for k_, val in c.options.items():
             setattr(v, k_, val)
-        info = v.verify(c)
+        try:
+            info = v.verify(c)
+        except Exception as e:  # one registration refused (Unsupported): the others are still shown
+            print(c.key, "NOT VERIFIED:", type(e).__name__, e)
+            continue
         print(c.key, info["stats"])
         res = discharge_all(v.obligs, to)
         for name, rs in sorted(res.items()):
